@@ -302,6 +302,40 @@ def power_case(seed):
     return out
 
 
+# ------------------------------------------------------------------ default step-size rules
+ROT = np.array([[0.6, -0.8], [0.8, 0.6]])          # rational rotation: n * ROT has operator norm exactly n
+
+
+def stepsize_case(args):
+    """Replay one exported (rule, branch, norms, given steps) case of MC_SolverStepsize on the real helper, with the
+    operator given as an Operator of exactly known norm (scaled rotation) or as its norm (float)."""
+    case, form = args
+    ns = [SL.qf(v) for v in case['ns']]
+    tau = SL.qf(case['tau']) if case['branch'] in ('both', 'tau') else None
+    sig = [SL.qf(v) for v in case['sig']] if case['branch'] in ('both', 'sigma') else None
+    Ls = [odl.MatrixOperator(n * ROT) if form == 'operator' else n for n in ns]
+    out = {'viol': [], 'events': [], 'key': ['stepsize', case['rule'], case['branch'], case['ns'], case['tau'], case['sig'], form]}
+    name = 'pdhg_stepsize' if case['rule'] == 'pdhg' else 'douglas_rachford_pd_stepsize'
+    sg = {'solver': name, 'clause': 'stepsize-admissible', 'branch': case['branch']}
+    np.random.seed(4711)
+    try:
+        if case['rule'] == 'pdhg':
+            t, s_ = S.pdhg_stepsize(Ls[0], tau=tau, sigma=None if sig is None else sig[0])
+            Pq = float(t) * float(s_) * ns[0] ** 2
+        else:
+            t, s_ = S.douglas_rachford_pd_stepsize(Ls, tau=tau, sigma=sig)
+            Pq = float(t) * sum(float(si) * n ** 2 for si, n in zip(s_, ns))
+    except Exception as e:
+        out['viol'].append((dict(sg, clause='raised'), {'stage': 'replay', 'stepsize_case': case, 'form': form,
+                                                        'error': type(e).__name__ + ': ' + str(e)[:120]}))
+        return out
+    D = case['P'][1]
+    out['events'].append({'kind': 'stepsize', 'rule': case['rule'], 'branch': case['branch'], 'P': case['P'],
+                          'obs': SL.snapvec([Pq], D)[0], 'obsq': int(min(round(Pq * 2 ** 20), 2 ** 31 - 1)),
+                          'meta': {'stage': 'replay', 'stepsize_case': case, 'form': form, 'observed': Pq, 'sig': sg}})
+    return out
+
+
 # ------------------------------------------------------------------ replay of exported instances
 def replay_mono(args):
     case, quick = args
@@ -417,6 +451,14 @@ def kkt_options(inst, real):
     return out
 
 
+def okw_for(inst, o):
+    """signature key `option`: the keyword options / variants a run was made under (family level)."""
+    nm = opt_name(o) if o else None
+    if inst.get('ls'):
+        nm = 'l' if nm in (None, 'default') else 'l+' + nm
+    return {'option': nm} if nm else {}
+
+
 def opt_name(o):
     from .c11 import option_name
     conc, o2 = split_conc(o)
@@ -472,7 +514,7 @@ def replay_kkt(args):
                 if not quick or (h + wi) % 2 == 0:
                     variants += block_variant(inst, real)
             for o in variants:
-                okw = {'option': opt_name(o)} if o else {}
+                okw = okw_for(inst, o)
                 fr = fixed_run(inst, real, xstar, ystar, nit=4 if real == 'pdhg' else 3, opts=o)
                 out['counts'].append(([real, inst['tag'], inst['tau'], inst['sig'], 'fixed', xstar, ystar, o], True))
                 sg = sig_of(real, 'fixed-point', functional=fk, problem=pclass(inst), **okw)
@@ -490,7 +532,8 @@ def replay_kkt(args):
                     out['sample'] = {'solver': SL.REALNAME[real], 'instance': inst['tag'], 'kkt_pair': w,
                                      'observed_after_1_2_3_iterations': [v.tolist() for v in fr['its']]}
     # ---- convergence towards optimality (relational): instances that have a solution
-    if aux['kkt']:
+    # (with l the dual terms are finite everywhere and h is strongly convex: a solution exists in any case)
+    if aux['kkt'] or inst.get('ls'):
         r0 = SL.kkt_residual(inst, SL.vec(inst['x0']))
         if r0 >= MIN_KKT0:
             for real in reals:
@@ -501,7 +544,7 @@ def replay_kkt(args):
                 if not quick or h % 2 == 1:
                     runs += [(200, o) for o in block_variant(inst, real)]
                 for Nn, o in runs:
-                    okw = {'option': opt_name(o)} if o else {}
+                    okw = okw_for(inst, o)
                     conc, o2 = split_conc(o)
                     rr = SL.run_real(dict(inst, solver=real), conc, 'opt', [Nn], pass_state=False, opts=o2)
                     out['counts'].append(([real, inst['tag'], inst['tau'], inst['sig'], 'conv', Nn, o], True))
@@ -561,9 +604,18 @@ def kkt_desc(rnd, solver, nblocks=None):
     xs = [Fraction(rnd.randint(-4, 4), 2) for _ in range(n)]
     dual_free = solver in ('pdhg',)
 
-    def fit_g(M, kind, c, ys):
-        """translation of g so that ys lies in dg(M x*)"""
-        Lx = [sum(M[i][j] * xs[j] for j in range(n)) for i in range(len(M))]
+    # forward-backward: infimal-convolution terms l_i = c_l |. - t_l|^2 (option l) in half of the cases; with the
+    # duals 0 the dual inclusion reads 0 in dg_i(L_i x* - t_l), so g_i is fitted to the shifted point
+    use_l = solver == 'fb' and rnd.random() < 0.5
+    lts = [[Fraction(rnd.randint(-2, 2)) for _ in M] if use_l else [Fraction(0)] * len(M) for M in Ms]
+    lcs = [rnd.choice([Fraction(1, 2), Fraction(1)]) for _ in Ms]
+    # with l half of the cases get NON-ZERO duals (not startable through the API: convergence clause only)
+    dual_free = dual_free or (use_l and rnd.random() < 0.5)
+
+    def fit_g(M, kind, c, ys, lt=None, lc=None):
+        """translation of g so that ys lies in dg(M x* - t_l)"""
+        Lx = [sum(M[i][j] * xs[j] for j in range(n)) - ((lt[i] + ys[i] / (2 * lc)) if use_l else 0)
+              for i in range(len(M))]          # argument of g_i: L_i x* - grad l_i*(y_i)
         if kind == 'L1':
             t = [Lx[i] - rnd.randint(1, 2) if ys[i] == c else Lx[i] + rnd.randint(1, 2) if ys[i] == -c else Lx[i]
                  for i in range(len(M))]
@@ -606,13 +658,17 @@ def kkt_desc(rnd, solver, nblocks=None):
         xs[:] = [lo if s[j] < 0 else hi if s[j] > 0 else xs[j] if lo <= xs[j] <= hi else min(lo + H, hi)
                  for j in range(n)]
         f = {'k': 'Box', 'c': [1, 1], 't': [], 'lo': q2(lo), 'hi': q2(hi)}
-    gs = [fit_g(M, k_, c_, ys) for M, k_, c_, ys in zip(Ms, gk, gc, yss)]      # (after x* is final)
+    gs = [fit_g(M, k_, c_, ys, lt, lc) for M, k_, c_, ys, lt, lc in zip(Ms, gk, gc, yss, lts, lcs)]   # (x* final)
     inst = {'solver': solver, 'tag': 'rand%s/%s/%s' % ('' if nblocks == 1 else str(nblocks) + 'op', SL.fkind(f),
                                                       '+'.join(SL.fkind(g) for g in gs)),
             'Ls': [[[q2(v) for v in r_] for r_ in M] for M in Ms], 'f': f, 'gs': gs, 'h': hfun,
             'tau': q2(tau), 'sig': [q2(v) for v in sigs], 'th': [1, 1],
             'x0': [q2(v + rnd.randint(2, 4)) for v in xs],
-            'y0': [], 'b': [], 'sol': [], 'lam': [0, 1], 'N': 3, 'pw': 1}
+            'y0': [], 'b': [], 'sol': [], 'lam': [0, 1], 'N': 3, 'pw': 1,
+            'ls': [{'k': 'L2sq', 'c': q2(c_), 't': [q2(v) for v in lt], 'lo': [0, 1], 'hi': [0, 1]}
+                   for c_, lt in zip(lcs, lts)] if use_l else []}
+    if use_l:
+        inst['tag'] += '/l'
     return inst, [q2(v) for v in xs], [[q2(v) for v in ys] for ys in yss]
 
 
@@ -638,7 +694,7 @@ def kkt_case(args):
         # a keyword option / dyadic scaling drawn per case (the plain call is the most frequent)
         o = rnd.choice([None, None, {'scale': rnd.choice(SL.SCALES)}] + kkt_options(inst, real)
                        + block_variant(inst, real))
-        okw = {'option': opt_name(o)} if o else {}
+        okw = okw_for(inst, o)
         fr = fixed_run(inst, real, xstar, ystar, nit=4 if real == 'pdhg' else 3, opts=o)
         detail = {'inst': inst, 'conc': 'rn', 'stage': 'relational', 'real': real, 'xstar': xstar, 'ystar': ystar,
                   'opts': o}
@@ -661,17 +717,22 @@ def kkt_case(args):
                 out['events'].append({'kind': 'conv', 'solver': real, 'r0': a, 'rN': b,
                                       'meta': dict(detail, N=200, kkt0=r0, kktN=rN,
                                                    sig=sig_of(real, 'convergence', functional=fk, problem=pclass(inst), **okw))})
-            # the solver's own default step-size rule (pdhg_stepsize / douglas_rachford_pd_stepsize)
+            # the solver's own default step-size rules: neither step given, only tau, only sigma
+            # (pdhg_stepsize / douglas_rachford_pd_stepsize; a run with one step given must still converge)
             if real in ('pdhg', 'dr') and r0 >= MIN_KKT0:
-                rd = SL.run_real(inst, 'rn', 'opt', [200], pass_state=False, default_steps=True)
-                if rd['err']:
-                    out['viol'].append((sig_of(real, 'raised', functional=fk, problem=pclass(inst), steps='default'), dict(detail, error=rd['err'])))
-                else:
-                    rN = SL.kkt_residual(inst, rd['x'])
-                    a, b = SL.exact.quantise_pair(r0, rN, bits=20)
-                    out['events'].append({'kind': 'conv', 'solver': real, 'r0': a, 'rN': b,
-                                          'meta': dict(detail, N=200, kkt0=r0, kktN=rN, default_steps=True, opts=None,
-                                                       sig=sig_of(real, 'convergence', functional=fk, problem=pclass(inst), steps='default'))})
+                for mode in ([(True, 'tau', 'sigma')[seed % 3]] if quick else (True, 'tau', 'sigma')):
+                    mname = 'default' if mode is True else 'only-' + mode
+                    rd = SL.run_real(inst, 'rn', 'opt', [200], pass_state=False, default_steps=mode)
+                    if rd['err']:
+                        out['viol'].append((sig_of(real, 'raised', functional=fk, problem=pclass(inst), steps=mname),
+                                            dict(detail, error=rd['err'], default_steps=mode, opts=None)))
+                    else:
+                        rN = SL.kkt_residual(inst, rd['x'])
+                        a, b = SL.exact.quantise_pair(r0, rN, bits=20)
+                        out['events'].append({'kind': 'conv', 'solver': real, 'r0': a, 'rN': b,
+                                              'meta': dict(detail, N=200, kkt0=r0, kktN=rN, default_steps=mode, opts=None,
+                                                           sig=sig_of(real, 'convergence', functional=fk,
+                                                                      problem=pclass(inst), steps=mname))})
     return out
 
 
@@ -703,6 +764,8 @@ def run(ctx):
              tlc_env('mono', tier, '0', '0', os.path.join(work, 'exp_mono.ndjson')), 1, 'ok'),
             ('selftest-bogus', 'MC_SolverMachine.tla', 'MC_SolverMachine_c12bogus.cfg',
              tlc_env('mono', 'quick', '0', '0'), 1, 'any')]
+    jobs.append(('stepsize-rules', 'MC_SolverStepsize.tla', 'MC_SolverStepsize.cfg',
+                 {'OUT_FILE': os.path.join(work, 'exp_steps.ndjson')}, 1, 'ok'))
     for s in KKT_SOLVERS:
         jobs.append(('kkt-' + s, 'MC_SolverMachine.tla', 'MC_SolverMachine_c12both.cfg',
                      tlc_env('kkt-' + s, tier, '0', '0', os.path.join(work, 'exp_kkt-%s.ndjson' % s), kkt='1'), 1, 'ok'))
@@ -751,6 +814,11 @@ def run(ctx):
         ktasks = [(s, base + 500000 + 1000 * si + i, quick) for si, s in enumerate(KKT_SOLVERS)
                   for i in range(20 if quick else 500)]
         couts = pool.map(kkt_case, ktasks, chunksize=4)
+        with open(os.path.join(work, 'exp_steps.ndjson')) as f:
+            scases = list({line: json.loads(line) for line in f}.values())
+        if len(scases) < 100:
+            raise MachineryError('step-size export too small')
+        couts += pool.map(stepsize_case, [(c, form) for c in scases for form in ('operator', 'norm')], chunksize=20)
     finally:
         pool.close()
         pool.join()
@@ -795,6 +863,10 @@ def run(ctx):
                     skipped[0] += 1       # TLC: the constructed pair needs internal duals the API cannot set
                     continue
                 raise MachineryError('trace event rejected as ill-formed by TLC: %s %s' % (cl, dumps(meta)[:300]))
+            if cl == 'textbook' and 'stepsize_case' in meta:
+                drift_add(tlcdrift, '%s branch=%s: TLC: the chosen steps differ from the documented formula (layer C)'
+                          % (meta['sig']['solver'], meta['sig']['branch']))
+                continue
             if cl == 'textbook':
                 inst = meta['inst']
                 drift_add(tlcdrift, '%s %s: TLC (Trace_SolverMachine): snapped observation differs from the reference iteration'
@@ -825,6 +897,14 @@ def replay(body):
     sig = body['signature']
     clause = sig['clause']
     print('signature:', dumps(sig))
+    if 'stepsize_case' in d:
+        o = stepsize_case((d['stepsize_case'], d['form']))
+        ev = o['events'][0] if o['events'] else None
+        print('case:', dumps(d['stepsize_case']), 'form', d['form'], 'observed', ev and ev['meta']['observed'], o['viol'])
+        lim = 1.0 if d['stepsize_case']['rule'] == 'pdhg' else 4.0
+        bad = bool(o['viol']) or not (0 < ev['meta']['observed'] < lim)
+        print('REPRODUCED' if bad else 'NOT-REPRODUCED')
+        return 1 if bad else 0
     if 'desc' in d and 'kind' in d['desc']:
         desc = d['desc']
         its, err = smooth_run(desc)
@@ -859,7 +939,7 @@ def replay(body):
         r0 = SL.kkt_residual(inst, SL.vec(inst['x0']))
         conc, o2 = split_conc(d.get('opts'))
         rr = SL.run_real(dict(inst, solver=d['real']), conc, 'opt', [d['N']], pass_state=False,
-                         default_steps=bool(d.get('default_steps')), opts=o2)
+                         default_steps=d.get('default_steps') or False, opts=o2)
         rN = SL.kkt_residual(inst, rr['x']) if not rr['err'] else float('inf')
         print('kkt_0', r0, 'kkt_N', rN, 'N', d['N'], rr['err'])
         bad = 10 * rN > r0 * (1 + 1e-4)
